@@ -2,6 +2,9 @@
    Reads observation lines produced by `encode run` on stdin:
      <id> kind=str abc=<dna|protein> dl=<d> hex=<text> => name=outcome ...
      <id> kind=tab abc=<dna|protein> => k=.. st=.. df=.. sy=.. fa=.. fc=..
+     <id> kind=win abc=<dna|protein> dl=<d> so=<lo>:<hi> do=<lo>:<hi> hex=<text>
+          => w.<P>=<outcome>[!g<j>]@<count>@<so>:<do> ... r.<P>=<outcome>@<count>@<so> ...
+          (encode_into on sub-slices at every pair of offsets: the distinct outcomes per pipeline)
    and prints one verdict line per case:
      <id> OK | <id> PROPFAIL <why> | <id> DIFF <why>
    PROPFAIL: an outcome of the implementation contradicts the property, decided by the
@@ -145,6 +148,89 @@ let check_str abc fields obs =
   if List.length toks < 12 then set_diff "too few observations";
   !verdict
 
+(* kind=win: encode_into on sub-slices of larger allocations, every pair of offsets.
+   Coq: C05_encode_into_window / C05_encode_into_alignment_irrelevant / C05_window_observation:
+   the outcome is encode_spec of the window content whatever the offsets, so per pipeline
+   exactly one distinct outcome may be observed (checked by check_C05: PROPFAIL), it equals
+   the extracted model run at the witness offsets, and no guard element changes (DIFF). *)
+let check_win abc fields obs =
+  let get k d = try List.assoc k fields with Not_found -> d in
+  let text = unhex (get "hex" "") in
+  let s = List.map byte_of_int text in
+  let dl = int_of_string (get "dl" "0") in
+  let len = List.length text in
+  let m = max 0 (len + dl) in
+  let range k = match String.split_on_char ':' (get k "0") with
+    | [a] -> let a = min 31 (int_of_string a) in (a, a)
+    | [a; b] -> let a = min 31 (int_of_string a) in (a, max a (min 31 (int_of_string b)))
+    | _ -> failwith ("bad range " ^ k) in
+  let (so_lo, so_hi) = range "so" and (do_lo, do_hi) = range "do" in
+  let nso = so_hi - so_lo + 1 and ndo = do_hi - do_lo + 1 in
+  let spec = encode_spec abc s in
+  let spec_s = show_outcome spec in
+  let verdict = ref "OK" in
+  let is_prop () = String.length !verdict > 8 && String.sub !verdict 0 8 = "PROPFAIL" in
+  let set_prop v = if not (is_prop ()) then verdict := "PROPFAIL " ^ v in
+  let set_diff v = if !verdict = "OK" then verdict := "DIFF " ^ v in
+  let toks = List.map kv (split ' ' obs) in
+  let first = ref None in
+  let expand o = if o = "=" then (match !first with Some f -> f | None -> "?") else (if !first = None then first := Some o; o) in
+  let k = int_of_nat (a_K abc) in
+  let pad j = byte_of_int (List.nth [0x2e; 0x61; 0x00; 0xff; 0x40; 0x5b; 0x6e] (j mod 7)) in
+  let counts = Hashtbl.create 16 in
+  let bump key c = Hashtbl.replace counts key (c + (try Hashtbl.find counts key with Not_found -> 0)) in
+  let prop_check name o =
+    match parse_outcome o with
+    | None -> set_diff (Printf.sprintf "%s unparsable-outcome %s" name (short o))
+    | Some r ->
+        if not (check_C05 abc s r) then
+          set_prop (Printf.sprintf "%s outcome %s expected %s len=%d" name (short o) (short spec_s) len) in
+  List.iter (fun (name, v) ->
+    let kind = if String.length name > 2 then String.sub name 0 2 else "" in
+    let pn = if String.length name > 2 then String.sub name 2 (String.length name - 2) else name in
+    if v = "unsupported" then begin bump ("w." ^ pn) (nso * ndo); bump ("r." ^ pn) nso end
+    else match String.split_on_char '@' v, pipeline_of pn with
+      | [o0; cnt; at], Some p when kind = "w." || kind = "r." ->
+          let o1 = expand o0 in
+          let (o, guard) = match String.index_opt o1 '!' with
+            | Some i -> (String.sub o1 0 i, Some (String.sub o1 (i + 1) (String.length o1 - i - 1)))
+            | None -> (o1, None) in
+          bump name (int_of_string cnt);
+          if kind = "w." then begin
+            let (so, d) = match String.split_on_char ':' at with
+              | [a; b] -> (int_of_string a, int_of_string b) | _ -> failwith "bad witness" in
+            let nm = Printf.sprintf "%s so=%d do=%d" name so d in
+            if dl = 0 then prop_check nm o;
+            (* the model at the witness offsets *)
+            let alloc = List.init so pad @ s @ List.init 9 (fun j -> pad (so + len + j)) in
+            let mem = List.init (d + m + 11) (fun j -> n_of_int ((j * 7 + 3) mod k)) in
+            let r = pipeline_encode_into_at p abc alloc (nat_of_int so) (nat_of_int len) mem (nat_of_int d) (nat_of_int m) in
+            let mo = show_outcome (window_outcome r (nat_of_int d) (nat_of_int m)) in
+            if o <> mo then set_diff (Printf.sprintf "%s outcome %s model %s len=%d dl=%d" nm (short o) (short mo) len dl);
+            (match guard with
+             | Some g ->
+                 if guards_unchanged mem r (nat_of_int d) (nat_of_int m) then
+                   set_diff (Printf.sprintf "%s element %s (relative to the destination window of %d) was overwritten" nm g m)
+             | None ->
+                 if not (guards_unchanged mem r (nat_of_int d) (nat_of_int m)) then
+                   set_diff (Printf.sprintf "%s model overwrites a guard element" nm))
+          end else begin
+            let so = int_of_string at in
+            let nm = Printf.sprintf "%s so=%d" name so in
+            prop_check nm o;
+            let alloc = List.init so pad @ s @ List.init 9 (fun j -> pad (so + len + j)) in
+            let mo = show_outcome (pipeline_encode_raw_at p abc junk alloc (nat_of_int so) (nat_of_int len)) in
+            if o <> mo then set_diff (Printf.sprintf "%s outcome %s model %s len=%d" nm (short o) (short mo) len);
+            if guard <> None then set_diff (nm ^ " unexpected guard flag")
+          end
+      | _ -> set_diff ("bad win token " ^ short name)) toks;
+  List.iter (fun pn ->
+    let c k = try Hashtbl.find counts k with Not_found -> 0 in
+    if c ("w." ^ pn) <> nso * ndo then set_diff (Printf.sprintf "w.%s covers %d of %d offset pairs" pn (c ("w." ^ pn)) (nso * ndo));
+    if c ("r." ^ pn) <> nso then set_diff (Printf.sprintf "r.%s covers %d of %d offsets" pn (c ("r." ^ pn)) nso))
+    ["gen"; "sse2"; "avx2"; "dG"; "dS"; "dA"];
+  !verdict
+
 let show_res_sym (r : sym res) = match r with
   | Ok s -> string_of_int (int_of_n s)
   | Err c -> "e" ^ string_of_int (int_of_nat c)
@@ -223,7 +309,10 @@ let () =
         let verdict =
           try
             let abc = (match get "abc" "dna" with "dna" -> dna | "protein" -> protein | x -> failwith ("bad abc " ^ x)) in
-            if get "kind" "str" = "tab" then check_tab abc obs else check_str abc fields obs
+            match get "kind" "str" with
+            | "tab" -> check_tab abc obs
+            | "win" -> check_win abc fields obs
+            | _ -> check_str abc fields obs
           with e -> "DIFF driver-exception " ^ Printexc.to_string e in
         print_endline (id ^ " " ^ verdict)
       end
